@@ -266,6 +266,12 @@ Proof.
   qsame [TStart (S k); TPrep (S k)].
 Qed.
 
+Lemma step_SrcSetupFail_Q : forall s s', step nt T s SrcSetupFail = Ok s' -> Qrel s s'.
+Proof.
+  intros s s' H; unfold step in H. destruct (src s) eqn:E; inversion H; subst.
+  qsame [TPrepFail (S k)].
+Qed.
+
 Lemma step_MainSeeClosed_Q : forall s s', step nt T s MainSeeClosed = Ok s' -> Qrel s s'.
 Proof.
   intros s s' H; unfold step in H. destruct (mn s) eqn:E; try discriminate.
